@@ -127,8 +127,8 @@ var (
 		ci := &chainImporter{fset: fset, std: StdImporter(fset),
 			known: map[string]*types.Package{"github.com/joeycumines/go-bigbuff": lib.Pkg},
 			dirs: map[string]string{
-				"bbsim/simrt":  filepath.Join(s.VerifDir, "simrt"),
-				"bbsim/oracle": filepath.Join(s.VerifDir, "oracle"),
+				"bbsim/simrt":                       filepath.Join(s.VerifDir, "simrt"),
+				"bbsim/oracle":                      filepath.Join(s.VerifDir, "oracle"),
 				"github.com/anishathalye/porcupine": filepath.Join(s.ModCache, "github.com/anishathalye/porcupine@v1.3.0"),
 			}}
 		hres, err := Instrument(fset, Options{SrcDir: s.HarnessDir, OutDir: filepath.Join(s.OutDir, "harness"),
